@@ -137,7 +137,7 @@ func externKey(fn *ssa.Function) string {
 // compute values, allocate, or write to files/loggers). Used only when there
 // is no explicit stub; every use is listed among the assumptions of the run.
 var purePkgs = map[string]bool{"strings": true, "strconv": true, "unicode": true, "unicode/utf8": true, "math": true, "errors": true,
-	"path": true, "path/filepath": true, "html": true, "time": true, "log": true, "fmt": true, "os": true, "io/ioutil": true, "bytes": true}
+	"path": true, "path/filepath": true, "html": true, "time": true, "log": true, "fmt": true, "os": true, "io": true, "io/ioutil": true, "bytes": true}
 
 func defaultPureExtern(fn *ssa.Function) bool {
 	if fn == nil || fn.Pkg == nil || fn.Signature.Recv() != nil {
@@ -157,6 +157,8 @@ func defaultPureExtern(fn *ssa.Function) bool {
 			return true
 		}
 		return false
+	case "io":
+		return fn.Name() == "ReadAll"
 	case "io/ioutil":
 		switch fn.Name() {
 		case "ReadFile", "ReadAll", "WriteFile", "TempDir", "TempFile", "ReadDir":
